@@ -1,5 +1,5 @@
 \* alphabet: '1' '2' '0' 'a'(hex 10 / data) ';' CR LF
-CONSTANTS Alphabet = {49, 48, 59, 13, 10, 120}  MaxLen = 9
+CONSTANTS Alphabet = {49, 50, 48, 59, 13, 10, 120}  MaxLen = 7
 SPECIFICATION Spec
 INVARIANTS StreamEqualsRef BodyIsSubsequence
 CHECK_DEADLOCK FALSE
